@@ -113,9 +113,12 @@ Definition ctx_ref (c : option cid) : gref :=
   | Some g => if N.eqb g 0 then GDefault else GIri g
   end.
 
-(* _is_contextual(queryGraph) for an identifier, which is a str: only the
-   string "__UNION__" is excluded, the default graph's IRI is not *)
-Definition qg_ref (c : option cid) : gref :=
+(* _is_contextual(queryGraph) for an identifier, which is a str: "__UNION__"
+   (never passed here) and the default graph's IRI are not contextual *)
+Definition qg_ref (c : option cid) : gref := ctx_ref c.
+
+(* as it was before the "fix:" commit e1d625e1 (finding F13a): only "__UNION__" was excluded *)
+Definition qg_ref_hist (c : option cid) : gref :=
   match c with None => GDefault | Some g => GIri g end.
 
 (* addN: collections.defaultdict(list) keyed by the context, insertion order *)
@@ -128,51 +131,21 @@ Fixpoint group_add (t : triple) (g : cid) (l : list (cid * list triple)) : list 
 Definition group (qs : list quad) : list (cid * list triple) :=
   fold_left (fun acc q => group_add (fst q) (snd q) acc) qs [].
 
-(* update(initBindings=...) splices the VALUES text in with
-   where_pattern.sub("WHERE { " + values, query): the text is used as a regex
-   REPLACEMENT TEMPLATE, so an escaped backslash in a term's n3 form becomes a
-   single backslash, an escaped CR a raw CR, and so on.
-   For the terms of the harness pool whose n3 form is changed by that, the table
-   gives the term the rewritten text denotes (None: it no longer parses, the
-   endpoint rejects the request).  The harness asserts the table against
-   re.sub and the endpoint's parser. *)
-Definition resub_table : list (term * option term) := [(19, None); (21, None); (27, Some 28)].
-
-Fixpoint assoc (t : term) (l : list (term * option term)) : option (option term) :=
-  match l with
-  | [] => None
-  | (k, v) :: r => if N.eqb t k then Some v else assoc t r
-  end.
-
-Definition resub_term (t : term) : option term :=
-  match assoc t resub_table with Some v => v | None => Some t end.
-
-Definition resub_pos (x : option term) : option (option term) :=
-  match x with
-  | None => Some None
-  | Some t => match resub_term t with Some t' => Some (Some t') | None => None end
-  end.
-
-Definition resub_pat (p : pat) : option pat :=
-  let '(s, pr, o) := p in
-  match resub_pos s, resub_pos pr, resub_pos o with
-  | Some s', Some p', Some o' => Some (s', p', o')
-  | _, _, _ => None
-  end.
-
+(* update(initBindings=...): the VALUES text is spliced in after "WHERE {"
+   literally (function replacement, commit f0b9913b repaired finding F13d) *)
 Definition compile_uop (u : uop) (r : gref) : upd :=
   match u with
   | UoInsertData t => UInsert r [t]
   | UoDeleteData t => UDelWhere r (pat_of t)
   | UoDeleteWhere p => UDelWhere r p
-  | UoDeleteWhereB p => match resub_pat p with Some p' => UDelWhere r p' | None => UBad end
+  | UoDeleteWhereB p => UDelWhere r p
   end.
 
 (* the edits an operation appends to the queue (None: not a write) *)
 Definition compile (o : op) : option (list upd) :=
   match o with
   | OAdd t c => Some [UInsert (ctx_ref c) [t]]
-  | OAddN qs => Some (map (fun gt => UInsert (GIri (fst gt)) (snd gt)) (group qs))
+  | OAddN qs => Some (map (fun gt => UInsert (ctx_ref (Some (fst gt))) (snd gt)) (group qs))
   | ORemove p c => Some [UDelWhere (ctx_ref c) p]
   | OAddGraph g => if N.eqb g 0 then None else Some [UCreate g]
   | ORemoveGraph g => Some [UDrop (if N.eqb g 0 then GDefault else GIri g)]
@@ -186,15 +159,16 @@ Record mst := { m_ep : ep; m_edits : list upd; m_auto : bool; m_dirty : bool }.
 Definition set_ep (s : mst) (e : ep) (l : list upd) : mst :=
   {| m_ep := e; m_edits := l; m_auto := m_auto s; m_dirty := m_dirty s |}.
 
-(* commit(): if self._edits: self._update(join(edits)); self._edits = None
-   - an exception in _update leaves the queue as it is.  (_edits None and []
-   behave alike and are both the empty list here.) *)
+(* commit(): if self._edits: edits, self._edits = self._edits, None; self._update(join(edits))
+   - the queue is emptied before the request is sent, so a rejected request
+   is not sent again (commit d390f22b repaired finding F13c).  (_edits None and
+   [] behave alike and are both the empty list here.) *)
 Definition m_commit (alias : bool) (s : mst) : mst * bool :=
   match m_edits s with
   | [] => (s, true)
   | us => match send alias (m_ep s) us with
           | Some e' => (set_ep s e' [], true)
-          | None => (s, false)
+          | None => (set_ep s (m_ep s) [], false)
           end
   end.
 
@@ -204,13 +178,11 @@ Definition m_write (alias : bool) (s : mst) (us : list upd) : mst * ans :=
     let '(s2, ok) := m_commit alias s1 in (s2, if ok then ANone else ARaised)
   else (s1, ANone).
 
-(* Python truthiness of the terms of the harness pool ("" 0 false 0.0);
-   the harness asserts this table against bool(term) *)
+(* contexts(triple) before commit 168749f3 (finding F13b): nts(s if s else Variable("s")) ...
+   with the Python truthiness of the terms of the harness pool ("" 0 false 0.0) *)
 Definition falsy_ids : list N := [5; 6; 7; 14]%N.
 Definition falsy (t : term) : bool := memb N.eqb t falsy_ids.
-
-(* contexts(triple): nts(s if s else Variable("s")) ... *)
-Definition truthy_pat (t : triple) : pat :=
+Definition truthy_pat_hist (t : triple) : pat :=
   let '(s, p, o) := t in
   (if falsy s then None else Some s, if falsy p then None else Some p, if falsy o then None else Some o).
 
@@ -225,7 +197,7 @@ Definition read_ans (alias : bool) (o : op) (e : ep) : ans :=
   | OTriples p c => ATriples (q_triples p (resolve alias (ctx_ref c)) (quads e))
   | OLen c => ANum (graph_len (resolve alias (ctx_ref c)) (quads e))
   | OContexts None => ANames (names e)
-  | OContexts (Some t) => ANames (ctx_rows (truthy_pat t) (quads e))
+  | OContexts (Some t) => ANames (ctx_rows (pat_of t) (quads e))
   | OQuery _ p c => ATriples (q_triples p (resolve alias (qg_ref c)) (quads e))
   | _ => ANone
   end.
@@ -325,42 +297,53 @@ Definition ep_ok (now expected : ep) : bool :=
 
 Record sst := { s_prev : ep;            (* the endpoint's dataset as last observed *)
                 s_pend : list wr;       (* writes made but not yet due at the endpoint, oldest first *)
+                s_poison : bool;        (* a statement the endpoint will reject is waiting among them *)
                 s_auto : bool; s_dirty : bool }.
 
-Definition flushed (s : sst) : ep := fold_left s_apply (s_pend s) (s_prev s).
-
-Definition s_next (s : sst) (now : ep) (pend : list wr) : sst :=
-  {| s_prev := now; s_pend := pend; s_auto := s_auto s; s_dirty := s_dirty s |}.
+Definition s_next (s : sst) (now : ep) (pend : list wr) (poison : bool) : sst :=
+  {| s_prev := now; s_pend := pend; s_poison := poison; s_auto := s_auto s; s_dirty := s_dirty s |}.
 
 Definition is_none (a : ans) : bool := match a with ANone => true | _ => false end.
 Definition is_raised (a : ans) : bool := match a with ARaised => true | _ => false end.
 
+(* the moment the queue goes to the endpoint (together with [extra], the write
+   being made): one request, executed in order; if a statement of it is
+   rejected the call raises, nothing is executed and the transaction is gone *)
+Definition flush_step (s : sst) (extra : list wr) (bad : bool) (now : ep) (a : ans)
+                      (ok : ans -> bool) : option sst :=
+  if s_poison s || bad then
+    if ep_ok now (s_prev s) && is_raised a then Some (s_next s now [] false) else None
+  else
+    if ep_ok now (fold_left s_apply (s_pend s ++ extra) (s_prev s)) && ok a
+    then Some (s_next s now [] false) else None.
+
+(* a write ([extra] = [w], not [bad]) or an update the endpoint rejects ([], bad) *)
+Definition write_step (s : sst) (extra : list wr) (bad : bool) (now : ep) (a : ans) : option sst :=
+  if s_auto s then flush_step s extra bad now a is_none
+  else if ep_ok now (s_prev s) && is_none a
+       then Some (s_next s now (s_pend s ++ extra) (s_poison s || bad)) else None.
+
 Definition spec_step (s : sst) (o : op) (now : ep) (a : ans) : option sst :=
   match classify o with
-  | KWrite w =>
-      if s_auto s then
-        if ep_ok now (s_apply (flushed s) w) && is_none a then Some (s_next s now []) else None
-      else
-        if ep_ok now (s_prev s) && is_none a then Some (s_next s now (s_pend s ++ [w])) else None
-  | KBad =>   (* a rejected update raises and leaves no trace *)
-      if ep_ok now (s_prev s) && is_raised a then Some (s_next s now (s_pend s)) else None
-  | KCommit =>
-      if ep_ok now (flushed s) && is_none a then Some (s_next s now []) else None
+  | KWrite w => write_step s [w] false now a
+  | KBad => write_step s [] true now a
+  | KCommit => flush_step s [] false now a is_none
   | KRollback =>
-      if ep_ok now (s_prev s) && is_none a then Some (s_next s now []) else None
+      if ep_ok now (s_prev s) && is_none a then Some (s_next s now [] false) else None
   | KAuto b =>
       if ep_ok now (s_prev s) && is_none a
-      then Some {| s_prev := now; s_pend := s_pend s; s_auto := b; s_dirty := s_dirty s |} else None
+      then Some {| s_prev := now; s_pend := s_pend s; s_poison := s_poison s; s_auto := b; s_dirty := s_dirty s |}
+      else None
   | KDirty b =>
       if ep_ok now (s_prev s) && is_none a
-      then Some {| s_prev := now; s_pend := s_pend s; s_auto := s_auto s; s_dirty := b |} else None
+      then Some {| s_prev := now; s_pend := s_pend s; s_poison := s_poison s; s_auto := s_auto s; s_dirty := b |}
+      else None
   | KRead =>
-      if negb (s_auto s) && negb (s_dirty s) then
-        if ep_ok now (flushed s) && read_ok o now a then Some (s_next s now []) else None
+      if negb (s_auto s) && negb (s_dirty s) then flush_step s [] false now a (read_ok o now)
       else
-        if ep_ok now (s_prev s) && read_ok o now a then Some (s_next s now (s_pend s)) else None
+        if ep_ok now (s_prev s) && read_ok o now a then Some (s_next s now (s_pend s) (s_poison s)) else None
   | KNoop =>
-      if ep_ok now (s_prev s) && is_none a then Some (s_next s now (s_pend s)) else None
+      if ep_ok now (s_prev s) && is_none a then Some (s_next s now (s_pend s) (s_poison s)) else None
   end.
 
 Fixpoint spec_run (s : sst) (ops : list op) (obs : list step_obs) : bool :=
@@ -390,7 +373,7 @@ Definition model_obs (c : case) : list step_obs :=
         (c_ops c).
 
 Definition spec_ok (c : case) (obs : list step_obs) : bool :=
-  spec_run {| s_prev := init_ep c; s_pend := []; s_auto := c_auto c; s_dirty := c_dirty c |}
+  spec_run {| s_prev := init_ep c; s_pend := []; s_poison := false; s_auto := c_auto c; s_dirty := c_dirty c |}
            (c_ops c) obs.
 
 Definition wf (c : case) : Prop := NoDup (c_init c) /\ NoDup (c_names c).
@@ -416,41 +399,3 @@ Definition ep_obs_eqb (a b : ep) : bool :=
 
 Definition obs_eqb (a b : list step_obs) : bool :=
   list_eqb (fun x y => ep_obs_eqb (fst x) (fst y) && ans_obs_eqb (snd x) (snd y)) a b.
-
-(* ------------------------------------------------------------------ *)
-(* Known findings: where the faithful model leaves the specification    *)
-
-(* F13a: the client names the default graph by its rdflib-internal IRI *)
-Definition uses_default_iri (o : op) : bool :=
-  match o with
-  | OAddN qs => existsb (fun q => N.eqb (snd q) 0) qs
-  | OUpdate _ (Some g) => N.eqb g 0
-  | OQuery _ _ (Some g) => N.eqb g 0
-  | _ => false
-  end.
-
-(* F13b: contexts(triple) decides by truthiness which positions are bound *)
-Definition falsy_contexts (o : op) : bool :=
-  match o with
-  | OContexts (Some (s, p, o')) => falsy s || falsy p || falsy o'
-  | _ => false
-  end.
-
-(* F13c: a rejected update stays in the queue *)
-Definition is_bad_op (o : op) : bool := match o with OBadUpdate => true | _ => false end.
-
-(* F13d: initBindings of update() go through a regex replacement template *)
-Definition in_resub (x : option term) : bool :=
-  match x with Some t => match assoc t resub_table with Some _ => true | None => false end | None => false end.
-Definition resub_hit (o : op) : bool :=
-  match o with
-  | OUpdate (UoDeleteWhereB (s, p, o')) _ => in_resub s || in_resub p || in_resub o'
-  | _ => false
-  end.
-
-Definition kf (c : case) : N :=
-  if negb (c_alias c) && existsb uses_default_iri (c_ops c) then 1
-  else if existsb falsy_contexts (c_ops c) then 2
-  else if existsb is_bad_op (c_ops c) then 3
-  else if existsb resub_hit (c_ops c) then 4
-  else 0.
